@@ -25,6 +25,7 @@ EXPLANATION = (
     " The decision site is discovered: predict (threshold parameter) or a later pipeline stage whose demotion is guarded by a comparison with the Balancer's threshold value; H1-H7 are judged there, and H3 then also accepts 'rows that carry a confidence' (presence, not truthiness) as scope."
     ' (H8) an issue is never written to a solved row after the MCS stage (shared with C03-V8); (H9) the threshold is stored as given.'
     ' (H10) the code that writes confidence and verdict into the rows is not dispatched to worker processes.'
+    ' (H11) the rows that reach the scoring loop are selected by solved_by == method alone.'
 )
 ASSUMPTIONS = ["confidence in [0,1] is a property of the xgboost model output (not decided)"]
 
